@@ -31,7 +31,7 @@ META = {
                   "others', for every number of instances). It needs exact sums of 2^32-scale distances over up to 2000x512 tokens and the "
                   "generator's float64 priorities; TLC has 32-bit integers and no floats, so a change that only degrades the spread is out of "
                   "reach of this check. Relational clauses on the real code hold for the sampled indexes (quick: ~15 indexes per zone list plus "
-                  "all 0..300 of one zone; thorough: all of 0..64 in every zone, ~60 more up to 2000, all 0..2000 of one zone), not for all "
+                  "all 0..200 of one zone; thorough: all of 0..64 in every zone, ~60 more up to 2000, all 0..2000 of one zone), not for all "
                   "2001x8 generators. Trusted: TLC, uint32->limb split, the driver's own bookkeeping of the ring it passes as taken set, "
                   "slices.Sort on the per-instance lists of generateTokensByInstanceID (reached by go:linkname, no change to dskit).",
     "technique": "TLA+ specification (TokenGen.tla) model-checked by TLC; traces recorded from the real code validated by TLC (TokenGenTrace.tla)",
@@ -40,10 +40,12 @@ META = {
 
 MC = {
     "quick": ["MC_quick_grow", "MC_quick_zones"],
-    "thorough": ["MC_quick_grow", "MC_quick_free", "MC_quick_zones", "MC_thorough_zones", "MC_thorough_three"],
+    "thorough": ["MC_quick_grow", "MC_quick_zones", "MC_thorough_grow", "MC_thorough_zones", "MC_thorough_three"],
 }
 # development aid on a shared machine: VERIF_TLC_WORKERS=4 bin/check C16 (default: all cores)
 WORKERS = int(os.environ.get("VERIF_TLC_WORKERS", "0")) or None
+TSCALE = float(os.environ.get("VERIF_C16_TIMEOUT_SCALE", "1"))      # development aid: oversubscribed machine
+COVERAGE_CFGS = ("MC_quick_grow", "MC_quick_zones")                 # vacuity guard (thorough tier) on the two small configs
 ACTIONS = ["PureCall", "Join", "Lose", "Leave", "Observe", "CanJoinObs", "AddPartition", "Family", "Construct"]
 
 
@@ -109,7 +111,7 @@ def _kind_of(path, h):
 def _record(ctx, tag):
     d = ctx.path("traces_%s" % tag, "x")
     d = os.path.dirname(d)
-    res = ctx.run_harness("c16", "^TestRecord$", env={"VERIF_TRACE_DIR": d}, timeout=1500)
+    res = ctx.run_harness("c16", "^TestRecord$", env={"VERIF_TRACE_DIR": d}, timeout=int(800 * TSCALE))
     if res.get("fatal"):
         raise verif.Inconclusive("driver: %s" % res["fatal"])
     files = (res.get("extra") or {}).get("trace_files") or []
@@ -122,6 +124,7 @@ def _validate(ctx, files, workers, timeout, count=True):
     extra = {f: "trace_%d.ndjson" % (k + 1) for k, f in enumerate(files)}
     r = ctx.tlc("tokengen", "TokenGenTrace", cfg="TokenGenTrace.cfg", extra_files=extra, workers=workers,
                 subst={"@@NTRACES@@": len(files)}, timeout=timeout, count=count,
+                extra_args=["-maxSetSize", "4000000"],      # the family 0..2000 of one zone is a set of 2001*512 tokens
                 heap="6g" if ctx.tier == "thorough" else None)
     return r
 
@@ -156,17 +159,18 @@ def run(ctx):
     zero = set(ACTIONS)
     skip_mc = bool(os.environ.get("VERIF_C16_SKIP_MC"))      # development aid (mutation runs): trace validation only
     for cfg in ([] if skip_mc else MC[ctx.tier]):
-        r = ctx.tlc("tokengen", "TokenGen", cfg=cfg + ".cfg", timeout=1500 if thorough else 600,
-                    coverage=thorough, deadlock=False, workers=WORKERS)
+        cov = thorough and cfg in COVERAGE_CFGS
+        r = ctx.tlc("tokengen", "TokenGen", cfg=cfg + ".cfg", timeout=(800 if thorough else 600) * TSCALE,
+                    coverage=cov, deadlock=False, workers=WORKERS)
         ctx.require_tlc_ok(r, cfg)
         if r.distinct == 0:
             raise verif.Inconclusive("%s explored nothing" % cfg)
-        if thorough:
+        if cov:
             zero &= _zero_actions(r.log)
     if not skip_mc:
         # the random generator's algorithm (rejection sampling + sort) in a dense 6-token space: contract on return, termination
         cfg = "MC_algo_thorough" if thorough else "MC_algo_quick"
-        r = ctx.tlc("tokengen", "RandomGenAlgo", cfg=cfg + ".cfg", timeout=900, workers=WORKERS)
+        r = ctx.tlc("tokengen", "RandomGenAlgo", cfg=cfg + ".cfg", timeout=600 * TSCALE, workers=WORKERS)
         ctx.require_tlc_ok(r, cfg)
     if thorough and zero and not skip_mc:
         raise verif.Inconclusive("actions never taken in any exhaustive config (vacuity): %s" % sorted(zero))
@@ -177,7 +181,7 @@ def run(ctx):
     # 2. record what the real code does, 3. validate it against the specification
     res, files = _record(ctx, "a")
     nworkers = min(len(files), WORKERS or 6)
-    r = _validate(ctx, files, nworkers, 1700 if thorough else 600)
+    r = _validate(ctx, files, nworkers, (800 if thorough else 600) * TSCALE)
     if r.timed_out or r.error:
         ctx.require_tlc_ok(r, "trace validation")
     if r.violated:
@@ -189,7 +193,7 @@ def run(ctx):
         res2, files2 = _record(ctx, "b")
         if len(files2) != len(files):
             raise verif.Inconclusive("re-recording produced %d traces instead of %d" % (len(files2), len(files)))
-        r2 = _validate(ctx, [files2[tr - 1]], 1, 1700 if thorough else 600, count=False)
+        r2 = _validate(ctx, [files2[tr - 1]], 1, (800 if thorough else 600) * TSCALE, count=False)
         if r2.timed_out or r2.error:
             ctx.require_tlc_ok(r2, "trace re-validation")
         if not r2.violated:
